@@ -121,9 +121,19 @@ def gen_source(rng):
         return {"kind": "desc", "config": None, "parse_qq": rng.random() < 0.5,
                 "source": None,
                 "text": f"T1N-R1W Secs 1 - 26: NE/4\nT2N-R1W Secs 1 - {n2}: Lot 1"}
-    if r < 0.08:
+    if r < 0.075:
+        # lot divisions of every kind (halves, quarters, compound, ranges)
+        return {"kind": "desc", "config": None, "parse_qq": True,
+                "source": None,
+                "text": rng.choice((
+                    "T154N-R97W Sec 14: NE/4 of Lot 1, N/2SW/4 of Lot 3, "
+                    "Lot 4(39.5)\nSec 15: W/2E/2 of Lots 2 and 3, S/2",
+                    "T3S-R7E Sec 6: SW/4 of Lot 2, E/2 of Lots 5 - 7, "
+                    "N/2N/2 of Lot 9(12.25)",
+                    "T154N-R97W Sec 1: S/2NE/4 of Lot 12, Lot 13, NW/4"))}
+    if r < 0.09:
         return {"kind": "empty"}
-    if r < 0.12:
+    if r < 0.13:
         return {"kind": "desc_unparsed", "text": corpus.gen_desc(rng)}
     if r < 0.7:
         return {"kind": "desc", "text": corpus.gen_desc(rng),
@@ -293,8 +303,26 @@ def _flat(x, out):
     return out
 
 
+_UNAVAILABLE = "<documented attribute raised or is missing>"
+
+
+def model_attr(tract, att):
+    """The value the model expects: the attribute itself; the documented
+    'n/a' placeholder only for names that are NOT documented attributes (a
+    documented one that raises inside its property must not be mistaken for
+    an unknown name - getattr's default swallows AttributeError)."""
+    if att in type(tract).ATTRIBUTES:
+        try:
+            return getattr(tract, att)
+        except Exception:  # noqa
+            return _UNAVAILABLE
+    return getattr(tract, att, _MISSING)
+
+
 def cell_spec(tract, att):
-    v = getattr(tract, att, _MISSING)
+    v = model_attr(tract, att)
+    if v is _UNAVAILABLE:
+        return ["never"]
     if v is _MISSING:
         return ["eq", f"{att}: n/a"]
     if v is None:
@@ -313,6 +341,8 @@ def cell_ok(spec, cell):
     kind = spec[0]
     if kind == "eq":
         return cell == spec[1]
+    if kind == "never":
+        return False
     if kind == "prefix":
         return cell.startswith(spec[1])
     if kind == "none":
@@ -495,7 +525,7 @@ class Runner:
     def note_cells(self, tracts, attrs):
         for t in tracts:
             for a in attrs:
-                v = getattr(t, a, _MISSING)
+                v = model_attr(t, a)
                 if v is _MISSING:
                     self.bump("cell:unknown_attr")
                 elif v is None:
@@ -667,9 +697,12 @@ class Runner:
             tracts = tracts_of(pytrs, src)
             attrs = list(op["attrs"])
             form = op["form"]
-            want_d = [{a: getattr(t, a, f"{a}: n/a") for a in attrs}
+            def want_(t, a):
+                v = model_attr(t, a)
+                return f"{a}: n/a" if v is _MISSING else v
+            want_d = [{a: want_(t, a) for a in attrs}
                       for t in tracts]
-            want_l = [[getattr(t, a, f"{a}: n/a") for a in attrs]
+            want_l = [[want_(t, a) for a in attrs]
                       for t in tracts]
             # the documented forms accept names grouped in (nested) lists
             g = op.get("group", 0)
